@@ -11,7 +11,7 @@ import (
 func init() {
 	register(&propDef{
 		ID:       "C08",
-		Explain:  "Decided (structural necessary conditions): the feed callback subscribe.(*Server).Update and everything it can reach (UpdateNotification, path.ToStrings, match.UpdateOnce/(*branch).update, every non-test match.Client implementer, coalesce.Insert/insert) contains no blocking construct (channel op outside a select with default, select without default, stream Send/Recv, sleeping/waiting/IO library calls); no blocking construct is executed while Match.mu, the queue mutex, or any lock of cache/ctree/metadata/latency is held, with the cache's client field bound to Server.Update and module visitors checked to be non-blocking; at most one queue entry per pending key (a pending key is never appended again); every stream Send in package subscribe is bracketed by Reset/Stop of the timer the watcher goroutine selects on, whose expiry sends a non-nil error to errC; duplicate counts are written only into a proto.Clone and carry the count returned by Queue.Next. Also decided: typestate of the send timer over the sender loop (stopped whenever Queue.Next is called, by induction over one iteration with sendSubscribeResponse inlined); removeQuery prunes only nodes without clients and children (ending one subscriber's registration leaves the others in place); coalesce.next forgets the dequeued key. Round-3 additions: a deleted leaf keeps its value for queued handles (who-may-write table of a node's content: internalDelete stores nothing into a node); the wake-up token (C11.token, borrowed). Round-4 additions: the all-targets walk never re-acquires Cache.mu (a recursive read lock behind a waiting writer blocks every later GnmiUpdate); the handle announced for a change is the tree's own node, on whose identity the queue coalesces (borrowed from C03). Round-5 addition: a change is offered to one subscriber at most once per notification also when several of its subscription paths match (borrowed from C06): otherwise it is inserted, and counted as a duplicate, several times.",
+		Explain:  "Decided (structural necessary conditions): the feed callback subscribe.(*Server).Update and everything it can reach (UpdateNotification, path.ToStrings, match.UpdateOnce/(*branch).update, every non-test match.Client implementer, coalesce.Insert/insert) contains no blocking construct (channel op outside a select with default, select without default, stream Send/Recv, sleeping/waiting/IO library calls); no blocking construct is executed while Match.mu, the queue mutex, or any lock of cache/ctree/metadata/latency is held, with the cache's client field bound to Server.Update and module visitors checked to be non-blocking; at most one queue entry per pending key (a pending key is never appended again); every stream Send in package subscribe is bracketed by Reset/Stop of the timer the watcher goroutine selects on, whose expiry sends a non-nil error to errC; duplicate counts are written only into a proto.Clone and carry the count returned by Queue.Next. Also decided: typestate of the send timer over the sender loop (stopped whenever Queue.Next is called, by induction over one iteration with sendSubscribeResponse inlined); removeQuery prunes only nodes without clients and children (ending one subscriber's registration leaves the others in place); coalesce.next forgets the dequeued key. Round-3 additions: a deleted leaf keeps its value for queued handles (who-may-write table of a node's content: internalDelete stores nothing into a node); the wake-up token (C11.token, borrowed). Round-4 additions: the all-targets walk never re-acquires Cache.mu (a recursive read lock behind a waiting writer blocks every later GnmiUpdate); the handle announced for a change is the tree's own node, on whose identity the queue coalesces (borrowed from C03). Round-5 addition: a change is offered to one subscriber at most once per notification also when several of its subscription paths match (borrowed from C06): otherwise it is inserted, and counted as a duplicate, several times. Round-6 addition: the response handed to a subscriber wraps the whole cached notification or a clone of the whole of it (a rebuilt message drops the atomic flag / the other updates of a coalesced atomic group).",
 		NotCover: "actual latency / non-interference timings; exactness of duplicate counts (C11); sufficiency of errC's capacity for late senders",
 		Run:      runC08,
 	})
